@@ -17,6 +17,9 @@ def run(ck, fb):
     r13g(ck, fb)
     r13h(ck, fb)
     r13i(ck, fb)
+    r13j(ck, fb)
+    r13k(ck, fb)
+    r13l(ck, fb)
 
 
 def _run0(ck, fb):
@@ -426,3 +429,87 @@ def r13i(ck, fb):
         ck.require(ok, 'R13i', 'healthy_invalid:stays-implies-queued', s0.where(),
                    'an instance is put back into the map without having been queued in unhealthy_timeout_set: the already-unhealthy instance whose '
                    'health entry just fired is never removed (e.g. the unhealthy instance of a dead owner after take-over)')
+
+
+def r13j(ck, fb):
+    ck.rule('R13j', 'a taken-over instance gets a full time-out from the take-over on: the copy a node holds of another node\'s instance is refreshed '
+                    'only by the owner\'s 15 s beat batch, and a dead owner is detected after 15-18 s, so the age of the copy says nothing about the '
+                    'client\'s heartbeats. In do_refresh_process_range the time handed to healthy_timeout_set.add derives from the current time, not '
+                    'from the copy\'s last_modified_millis alone; otherwise a heart-beating instance is marked unhealthy (and can be removed) by the '
+                    'first time_check after the take-over, and the verdict is broadcast')
+    b = ck.body(SV + 'do_refresh_process_range', 'R13j')
+    if not b:
+        return
+    n = 0
+    for x in util.region(fb, b):
+        now = Taint(x, call_src=lambda t: bool(re.search(r'now_millis(_i64)?$|now_second', (t.get('f') or {}).get('d', '') or '')))
+        for s0 in util.mut_calls_on_field(x, 'healthy_timeout_set', r'::add$'):
+            n += 1
+            ck.analysed(x)
+            ck.require(len(s0.args) >= 2 and now.op_tainted(s0.args[1]), 'R13j', 'take-over:clock-starts-now', s0.where(),
+                       'the clock of a taken-over instance is armed with the age of the mirror copy: 3 nodes, five HTTP instances beating every 5 s owned '
+                       'by node 3; 17.5 s after node 3 is killed they are reported unhealthy on nodes 1 and 2', 'armed from the current time')
+    ck.floor('R13j', 'take-over arming sites', n, 1)
+
+
+def r13k(ck, fb):
+    ck.rule('R13k', 'a heartbeat that changes what is listed is published like any change: Service::update_instance classifies an update that only '
+                    'refreshes the time stamp as UpdateTime (no subscriber notification, no immediate cluster sync). That classification must be '
+                    'conditional on the health flag being unchanged - the beat that brings an unhealthy instance back otherwise stays local for up to '
+                    'a beat batch (15 s), while the change to unhealthy went out within half a second')
+    b = ck.body(SV + 'update_instance', 'R13k')
+    if not b:
+        return
+    from rn.facts import pl_fields
+    hl = Taint(b, place_src=lambda p: pl_fields(p)[-1:] == ['healthy'])
+    sites = []
+    for (i, j, st) in b.stmts():
+        rv = st.get('rv') or {}
+        if rv.get('k') == 'agg' and rv.get('adt', '').endswith('UpdateInstanceType') and rv.get('variant') == 'UpdateTime':
+            sites.append(i)
+    if not ck.require(len(sites) >= 1, 'R13k', 'anchor:UpdateTime', b.where(), 'update_instance no longer classifies an update as UpdateTime'):
+        return
+    for i in sites:
+        ok = False
+        for a in cfg.guard_atoms(b, i):
+            sw = a[-1]
+            term = b.blocks[sw]['t'] if isinstance(sw, int) and sw < len(b.blocks) else None
+            if term is not None and term.get('k') == 'switch' and hl.op_tainted(term['discr']):
+                # a comparison of two health flags, not the mere test of one
+                d = cfg.describe_operand(b, term['discr'])
+                if d.get('k') in ('bin', 'call'):
+                    ok = True
+        ck.require(ok, 'R13k', 'update_instance:UpdateTime-only-when-health-unchanged', b.where(i),
+                   'an update is classified UpdateTime without comparing the health flag of the stored instance with the incoming one: an instance went '
+                   'unhealthy (published), its beats resume: nodes 2 and 3 still report it unhealthy 12.1 s later, subscribers are not told',
+                   'health compared first')
+
+
+def r13l(ck, fb):
+    ck.rule('R13l', 'only a heartbeat restarts the clock of an instance this node owns: NamingActor::receive_snapshot applies the instances a peer '
+                    'sends (start-up pulls at 1 s, 15 s, 45 s) through update_instance, which stamps them with the current time. A peer\'s copy of an '
+                    'instance whose origin is this very node must be told apart (a test involving from_cluster and the node\'s own id before the '
+                    'update), otherwise each pull counts as a heartbeat: instances that never beat, owned by a quickly restarted node, stay listed '
+                    'for 80 s instead of 35 s')
+    b = ck.body(NA + 'receive_snapshot', 'R13l')
+    if not b:
+        return
+    from rn.facts import pl_fields
+    ups = b.calls(re.escape(NA + 'update_instance') + '$')
+    if not ck.require(len(ups) >= 1, 'R13l', 'anchor:update_instance', b.where(), 'receive_snapshot no longer applies instances through update_instance'):
+        return
+    fc = Taint(b, place_src=lambda p: pl_fields(p)[-1:] == ['from_cluster'])
+    me = Taint(b, place_src=lambda p: pl_fields(p)[-1:] == ['node_id'])
+    gates = [i for i, blk in enumerate(b.blocks) if blk['t']['k'] == 'switch' and fc.op_tainted(blk['t']['discr']) and me.op_tainted(blk['t']['discr'])]
+    nxt = [x.bb for x in b.calls(r'Iterator>::next$')]
+    for s0 in ups:
+        ok = False
+        for g in gates:
+            t = b.blocks[g]['t']
+            outs = [tb for (_, tb) in t['targets']] + [t['otherwise']]
+            # after the test the update can be skipped: the loop head is reachable from one of its edges without passing the update
+            if s0.bb in cfg.reach_from(b, [g]) and any(any(x in cfg.reach_from(b, [tb], blocked_blocks=[s0.bb]) for x in nxt) and tb != s0.bb for tb in outs):
+                ok = True
+        ck.require(ok, 'R13l', 'receive_snapshot:own-instance-copy-is-not-a-heartbeat', s0.where(),
+                   'every instance of a peer snapshot is applied with the current time, also the peer\'s copy of an instance this node owns',
+                   'copies of own instances are told apart first')
